@@ -133,4 +133,85 @@ theorem withdrawFunds_ok {s s' : State} {m : WithdrawMsg} (h : withdrawFunds s m
   injection h with h; subst h
   refine ⟨_, _, _, _, by assumption, by simp_all, by simp_all, by assumption, by assumption, by omega, by omega, by assumption, rfl⟩
 
+/-! ### grants -/
+
+theorem calcChecks_none {s : State} {c : Campaign} {m : GrantMsg} (h : calcChecks s c m = none) :
+    m.tv = true ∧ kycOk m.kyc = true ∧ isSubAddr s.subs m.receiver = false ∧
+    ((c.rtype = 2 ∨ c.rtype = 3) → m.srcOk = true) ∧
+    ((c.rtype = 4 ∨ c.rtype = 5) → noSignup s c.promoter m.referee = false) := by
+  unfold calcChecks at h
+  invert h
+  refine ⟨by simp_all, by simp_all, by simp_all, ?_, ?_⟩
+  · intro hr; simp_all
+  · intro hr; simp_all
+
+theorem calculate_ok {s : State} {c : Campaign} {m : GrantMsg} {r : List Sub × Amt} (h : calculate s c m = .ok r) :
+    calcChecks s c m = none ∧ r.1 = ensureSub s.subs m.receiver ∧
+    ((c.rtype ≠ 8 ∧ r.2 = fixedAmt c) ∨
+     (c.rtype = 8 ∧ ∃ b, betLookup s.bets m.bet m.receiver = some b ∧ r.2 = betAmt c b)) := by
+  unfold calculate at h
+  invert h
+  · injection h with h; subst h
+    exact ⟨by assumption, rfl, Or.inr ⟨by assumption, _, by assumption, rfl⟩⟩
+  · injection h with h; subst h
+    exact ⟨by assumption, rfl, Or.inl ⟨by assumption, rfl⟩⟩
+
+theorem grantCaps_ok {s : State} {c : Campaign} {m : GrantMsg} {r : List Stat × Nat} (h : grantCaps s c m = .ok r) :
+    (0 < c.capCount → getStat s.stats c.uid m.receiver < c.capCount) ∧
+    r.1 = capStats s c m.receiver ∧
+    ∃ pa p, getA s.byAddr c.promoter = some pa ∧ getP s.promoters pa.2 = some p ∧ r.2 = p.uid ∧
+      catCapHit s.byCat p c.category m.receiver = false := by
+  unfold grantCaps at h
+  invert h
+  injection h with h; subst h
+  refine ⟨?_, rfl, _, _, by assumption, by assumption, rfl, by simp_all⟩
+  intro hc
+  rename_i hcap _ _ _ _ _ _ _
+  omega
+
+theorem distSub_ok {time : Nat} {bank : Bank} {subs : List Sub} {receiver : Nat} {a : Amt} {r : Bank × List Sub}
+    (h : distSub time bank subs receiver a = .ok r) :
+    (0 < a.sub ∧ send bank POOL (SUBBASE + receiver) a.sub = .ok r.1 ∧
+       ∃ sb, getSub subs receiver = some sb ∧ hasLock sb (time + a.unlock) = false ∧
+         r.2 = setSub subs (lockedTopUp sb (time + a.unlock) a.sub)) ∨
+    (a.sub ≤ 0 ∧ r = (bank, subs)) := by
+  unfold distSub at h
+  invert h
+  · injection h with h; subst h
+    exact Or.inl ⟨by assumption, by assumption, _, by assumption, by simp_all, rfl⟩
+  · injection h with h; subst h
+    exact Or.inr ⟨by omega, rfl⟩
+
+theorem distMain_ok {bank bank' : Bank} {receiver : Nat} {a : Amt} (h : distMain bank receiver a = .ok bank') :
+    (0 < a.main ∧ receiver ≠ POOL ∧ send bank POOL receiver a.main = .ok bank') ∨ (a.main ≤ 0 ∧ bank' = bank) := by
+  unfold distMain at h
+  invert h
+  · injection h with h; subst h
+    exact Or.inl ⟨by assumption, by assumption, by assumption⟩
+  · injection h with h; subst h
+    exact Or.inr ⟨by omega, rfl⟩
+
+theorem distribute_ok {time : Nat} {bank : Bank} {subs : List Sub} {receiver : Nat} {a : Amt} {d : Bank × List Sub}
+    (h : distribute time bank subs receiver a = .ok d) :
+    ∃ r, distSub time bank subs receiver a = .ok r ∧ distMain r.1 receiver a = .ok d.1 ∧ d.2 = r.2 := by
+  unfold distribute at h
+  invert h
+  injection h with h; subst h
+  rename_i r _ _ _ hm
+  exact ⟨r, by assumption, hm, rfl⟩
+
+theorem grantReward_ok {s s' : State} {m : GrantMsg} (h : grantReward s m = .ok s') :
+    ∃ c r caps d, getR s.rewards m.uid = none ∧ getC s.campaigns m.campaign = some c ∧
+      c.active = true ∧ c.startTS ≤ s.time ∧ s.time ≤ c.endTS ∧
+      calculate s c m = .ok r ∧ grantCaps s c m = .ok caps ∧
+      r.2.main + r.2.sub ≤ c.pool.avail ∧
+      distribute s.time s.bank r.1 m.receiver r.2 = .ok d ∧
+      s' = grantBook s c m r.2 caps.1 caps.2 d.1 d.2 := by
+  unfold grantReward at h
+  invert h
+  injection h with h; subst h
+  refine ⟨_, _, _, _, ?_, by assumption, by simp_all, by omega, by omega, by assumption, by assumption, by omega,
+    by assumption, rfl⟩
+  cases hr : getR s.rewards m.uid <;> simp_all
+
 end Sge.Reward
